@@ -88,6 +88,11 @@ TraceNext ==
   \/ /\ l <= Len(Rec)
      /\ LET ev == Rec[l] IN
           IF ev.a = "reset" THEN run' = ev.run /\ pre' = [k \in {} |-> 0]
+          ELSE IF ev.a = "nodecmd" THEN  \* node level (WAL on a misbehaving disk): an error reply and a changed value do not go together
+               /\ run' = run /\ pre' = pre
+               /\ (ev.err /\ ev.before # ev.after =>
+                     PrintT(<<"VERDICT", ToJson([run |-> run, l |-> l, v |-> "bad", op |-> "NODE",
+                                                 what |-> "a command that the node answered with an error changed what the node serves"])>>))
           ELSE IF ev.a = "mass" THEN     \* n keys with the same deadline, the clock jumps, one persistent key stays
                /\ run' = run /\ pre' = pre
                /\ LET due == ev.jump >= ev.ttl
